@@ -482,11 +482,36 @@ func guardedBy(fn *ssa.Function, b *ssa.BasicBlock, pred func(cd path.Cond, trut
 		if cd.Neg {
 			truth = !truth
 		}
-		if pred(cd, truth) {
+		if anyPresentation(cd, truth, pred) {
 			return true
 		}
 	}
 	return false
+}
+
+// anyPresentation offers pred every equivalent way of writing "the comparison cd has
+// the given truth value": as written, negated (i < n false  ==  i >= n true) and with
+// the operands exchanged (i < n  ==  n > i).  A rule that recognises one spelling
+// recognises them all.
+func anyPresentation(cd path.Cond, truth bool, pred func(cd path.Cond, truth bool) bool) bool {
+	neg := map[token.Token]token.Token{token.LSS: token.GEQ, token.GEQ: token.LSS, token.GTR: token.LEQ, token.LEQ: token.GTR, token.EQL: token.NEQ, token.NEQ: token.EQL}
+	flip := map[token.Token]token.Token{token.LSS: token.GTR, token.GTR: token.LSS, token.LEQ: token.GEQ, token.GEQ: token.LEQ, token.EQL: token.EQL, token.NEQ: token.NEQ}
+	if pred(cd, truth) {
+		return true
+	}
+	n := cd
+	n.Op = neg[cd.Op]
+	if pred(n, !truth) {
+		return true
+	}
+	f := cd
+	f.Op, f.X, f.Y = flip[cd.Op], cd.Y, cd.X
+	if pred(f, truth) {
+		return true
+	}
+	fn := f
+	fn.Op = neg[f.Op]
+	return pred(fn, !truth)
 }
 
 // boolGuard reports whether b is dominated by the edge on which the boolean value
@@ -627,4 +652,41 @@ func valueOrigins(v ssa.Value) []ssa.Value {
 
 func coreDiag(rule, fn, object, pos, reason string) core.Diag {
 	return core.Diag{Rule: rule, Func: fn, Object: object, Pos: pos, Reason: reason}
+}
+
+// retAlt is one way a function delivers result i: the value and the block whose
+// guards describe when (for a result merged from several assignments - "parts = ...;
+// return parts" - one alternative per incoming edge of the merge, seen from the
+// block the edge leaves; otherwise the return itself).
+type retAlt struct {
+	val ssa.Value
+	blk *ssa.BasicBlock
+	ret *ssa.Return
+}
+
+func returnAlternatives(fn *ssa.Function, i int) []retAlt {
+	var out []retAlt
+	for _, b := range fn.Blocks {
+		if len(b.Instrs) == 0 || b == fn.Recover {
+			continue
+		}
+		rt, ok := b.Instrs[len(b.Instrs)-1].(*ssa.Return)
+		if !ok || i >= len(rt.Results) {
+			continue
+		}
+		seen := map[*ssa.Phi]bool{}
+		var expand func(v ssa.Value, from *ssa.BasicBlock)
+		expand = func(v ssa.Value, from *ssa.BasicBlock) {
+			if ph, ok := v.(*ssa.Phi); ok && !seen[ph] && len(path.NaturalLoop(ph.Block())) == 0 {
+				seen[ph] = true
+				for k, e := range ph.Edges {
+					expand(e, ph.Block().Preds[k])
+				}
+				return
+			}
+			out = append(out, retAlt{v, from, rt})
+		}
+		expand(rt.Results[i], b)
+	}
+	return out
 }
